@@ -122,8 +122,8 @@ CLAIMED["C03"] = dict(
          "psf_binheader_readf calls (hypotheses read-size>=0 and SEEK_SET position>=0 proved necessary, met at every call site); psf_open_file's tail: a non-NULL "
          "result has 1<=channels<=1024, samplerate>=1, frames>=0, sections>=1, non-zero container and codec fields for an ARBITRARY parser result, a NULL result has "
          "sf_errno != 0 and a non-empty message (error table extracted from the running library); the 8 read wrappers ask the codec for exactly the caller's "
-         "capacity, zero-fill only inside the buffer, return within [0, requested]; sf_seek passes positions in [0, frames]. Three defects of the current tree are proved as counter-examples with partial theorems and reported as KNOWN-FINDING (the IFF-family chunk loops never ending on a pipe; SVX backward chunk jump looping on every route; CAF info chunk on a pipe giving psf_binheader_readf a negative count). Three more found by this check were repaired in /repo (sf_get_chunk_data division by zero c8a9c60, SDS block scan on a pipe 62c7950, NIST unchecked sscanf 6408f3b): they are now full-strength theorems about the current rule, the old rules' failures are kept as `_old_rule` theorems, and their witnesses run first on every run as regression scripts. "
-         "Ties: header-cache log events on parametrised AU headers and on the WAV chunk walk (exact psf_binheader_readf sequences) across all growth boundaries up to the 64 KiB / 100 KiB refusals, open-gate probes, wrapper/seek scripts (all deterministic families). "
+         "capacity, zero-fill only inside the buffer, return within [0, requested]; sf_seek passes positions in [0, frames]. Round 4: the chunk loops of svx/caf/wav/rf64/aiff (progress rule, psf_binheader_tell) are proved bounded by the input size for every announced length incl. a pipe (chunk_loop_bounded_by_input/_by_length; the old rule's endless loops kept as *_old_rule theorems), CAF info count in range (caf_info_count), and 12 per-site bounds models (bext, cart + SFC_GET_CART_INFO copy, PEAK, LIST/INFO string, labl, cue, smpl, AIFF text/MARK/COMT, CAF info/chan: every write inside its destination for ALL declared lengths, counts and remaining bytes; capacities regenerated from the tree). Five defects found here were repaired (fixes 0001-0005) and run as regression witnesses. "
+         "Ties: header-cache log events on parametrised AU headers and on the WAV chunk walk (exact psf_binheader_readf sequences) across all growth boundaries up to the 64 KiB / 100 KiB refusals, open-gate probes, wrapper/seek scripts, and the site tie: 7 sites (bext, cart, INFO string, cue, smpl, AIFF text, CAF info) x every boundary of the model's case split, parse log + getmeta vs sfmodel sites (all deterministic families). "
          "MONITORED ONLY, not proved: memory safety and termination of the ~25 parsers and the codecs themselves - structure-aware mutations of every writable "
          "(container, encoding) with all metadata chunks, random API scripts, routes vio/fd/pipe, forked children under ASan with a 5 s per-call alarm.",
     technique="Lean 4 theorems over hand-written models (header cache, open gate, read wrappers) + sampled correspondence + sanitizer-monitored structure-aware fuzzing",
@@ -160,8 +160,8 @@ CLAIMED["C15"] = dict(
          "positions (seek_failure_keeps_position), one store callback never changes bytes below its position and a failing seek does not move it (accepted_prefix_preserved). Tied to the code by "
          "(A) byte-for-byte correspondence (transcript, callback-kind sequence, final bytes) for RAW/AU/WAV encodings x 3 workloads x EVERY post-open callback x every applicable fault kind, "
          "persistent and single-shot; (B) the K-complete enumeration (open included) on 37 representative formats (22 containers, every codec family) with the C15 predicate on the implementation's "
-         "transcript under ASan with a callback budget. Partial: block-codec loops, header parsers and the other containers' header writers are monitored by (B) only; three known-finding classes "
-         "(partial frame, unchecked psf_fseek before writes, CAF/SVX scanner hang); descriptor-route OS errors not exercised.",
+         "transcript under ASan with a callback budget. Partial: block-codec loops, header parsers and the other containers' header writers are monitored by (B) only; two known-finding classes "
+         "(partial frame, unchecked psf_fseek before writes; the CAF/SVX scanner hang was repaired in round 4 and is proved bounded in SfProps/C03Loops.lean); descriptor-route OS errors not exercised.",
     technique="Lean 4 theorems over an oracle I/O model + complete fault-point enumeration (differential for L1 formats, predicate on implementation transcripts elsewhere)",
     design_ref="DESIGN.md §7 C15")
 
